@@ -576,6 +576,17 @@ func runC07(seed int64, tier string, outDir string) *result {
 					sw[i], sw[i+1] = sw[i+1], sw[i]
 					with(fmt.Sprintf("swap [%d],[%d]", i, i+1), sw)
 				}
+				// a sibling identifier over the SAME multihash (other codec / CID version): a different
+				// link, and a different string in the signed bytes
+				if c, err := cid.Decode(cur[i]); err == nil {
+					for _, sib := range []cid.Cid{cid.NewCidV1(cid.Raw, c.Hash()), cid.NewCidV1(cid.DagProtobuf, c.Hash()), cid.NewCidV0(c.Hash())} {
+						if sib.String() != cur[i] {
+							sb := append([]string{}, cur...)
+							sb[i] = sib.String()
+							with(fmt.Sprintf("replace [%d] by a sibling CID of the same multihash (codec %d, version %d)", i, sib.Type(), sib.Version()), sb)
+						}
+					}
+				}
 			}
 			if len(cur) > 0 {
 				with("duplicate [0] at end", append(append([]string{}, cur...), cur[0]))
